@@ -84,5 +84,11 @@ func init() {
 		prog("progFlvMuxerProcess", "av/format/flv/muxer.go", "Muxer", "process")
 		prog("progTsMuxerClose", "av/format/mpegts/muxer.go", "Muxer", "Close")
 		prog("progTsMuxerProcess", "av/format/mpegts/muxer.go", "Muxer", "process")
+		// per-protocol connection counters of the service entry points (C03)
+		prog("progRtspSessionProcess", "service/rtsp/session.go", "Session", "process")
+		prog("progPullPlayStream", "service/rtsp/pull_client.go", "PullClient", "playStream")
+		prog("progWspSessionProcess", "service/wsp/session.go", "Session", "process")
+		prog("progHttpFlvConsume", "service/flv/httpflv.go", "", "ConsumeByHTTP")
+		prog("progWsFlvConsume", "service/flv/wsflv.go", "", "ConsumeByWebsocket")
 	})
 }
